@@ -151,6 +151,9 @@ class FuncRef:
         return f"<func {self.info.qualname}>"
 
 
+STDLIB_CONSTANT_MODULES = {"codecs", "string", "sys", "math", "struct"}
+
+
 class ModRef:
     def __init__(self, name: str):
         self.name = name
@@ -799,6 +802,16 @@ class Folder:
                     return FuncRef(r)
                 if isinstance(r, tuple):
                     return self.repo.const(r[1], r[2])
+            elif base.name in STDLIB_CONSTANT_MODULES:
+                # plain data constants of a few standard-library modules (byte order marks, digit strings, limits): read from the
+                # interpreter's own standard library — never from the analysed package
+                import importlib
+                try:
+                    val = getattr(importlib.import_module(base.name), a)
+                except Exception:
+                    val = None
+                if isinstance(val, (bytes, str, int, float)) and not isinstance(val, bool):
+                    return val
             return ModRef(full)
         if isinstance(base, ClassRef):
             ci = base.info
